@@ -548,6 +548,11 @@ func (c *ctx) caseM(b *batch, l *Loaded, name string) error {
 				if rg, ok := w.Ragged(name, in); ok {
 					c.decodeCase(b, l, name, rg, zero, "ragged")
 				}
+				if c.r.Intn(3) == 0 {
+					if bg, ok := w.BadGroup(name, in); ok {
+						c.decodeCase(b, l, name, bg, zero, "badgroup")
+					}
+				}
 				if len(in) > 0 && c.r.Intn(4) == 0 {
 					// every prefix of a valid encoding
 					step := 1
